@@ -144,7 +144,8 @@ StateProps == <<
   <<"C08_StopSent", C08_StopSent>>, <<"C08_NoDangling", C08_NoDangling>>,
   <<"C13_CountersMatch", C13_CountersMatch>>, <<"C13_CompletedOnce", C13_CompletedOnce>>,
   <<"C13_StreamGetsCompletion", C13_StreamGetsCompletion>>,
-  <<"C14_AbortAllOnExceed", C14_AbortAllOnExceed>>, <<"C14_ExceededStopped", C14_ExceededStopped>>
+  <<"C14_AbortAllOnExceed", C14_AbortAllOnExceed>>, <<"C14_ExceededStopped", C14_ExceededStopped>>,
+  <<"C14_NoAbortWithin", C14_NoAbortWithin>>
 >>
 
 -----------------------------------------------------------------------------
